@@ -396,7 +396,16 @@ fn ip_case(ch: &mut Choices<'_>, st: &mut Stats) -> CaseResult {
             st.class("ip-address");
         }
         1 => {
-            // function literal argument
+            // function literal argument; an address whose leading run of identifier characters is a name of the
+            // scheme (`aab:0::1` where `aab` is a field) is read as that identifier - the argument grammar is
+            // documented as ambiguous there, so the form is not judged
+            let run: String = text.chars().take_while(|c| c.is_ascii_alphanumeric() || *c == '_' || *c == '.').collect();
+            let run = run.trim_end_matches('.');
+            if !run.is_empty() && (scheme().get_field(run).is_ok() || scheme().get_function(run).is_ok()) {
+                st.excluded();
+                st.class("ip-argument-reads-as-identifier");
+                return Ok(());
+            }
             let filter = format!("ipid({text}) == 1.2.3.4");
             let case = || json!({"filter": filter});
             match parse_json(&filter) {
